@@ -123,3 +123,20 @@ CLAIMS['C07'] = dict(
           'asynchronous single- and multi-chunk decoders perform the same steps and the stream decoder is a thin wrapper; CasObject::serialize derives boundary offsets, slices, section offsets and the trailing '
           'footer length consistently; serialize_chunk pairs the header scheme with the bytes written. Byte equality through lz4/bg4 for every input and bg4 pointer arithmetic are not decided (dynamic tools territory).'),
     note='')
+
+# obligations added after the fourth round of independent changes (DESIGN.md 10.3)
+_ROUND4 = {
+    'C03': 'Also: outside the chunker data is fed with is_final = false and the stream is closed only in SingleFileCleaner::finish (R03f); cur_chunk_len tracks the buffered chunk on every path (R03d/R04d).',
+    'C04': 'Also (R04d): path-wise symbolic length accounting — on every acyclic path through Chunker::next the bytes appended to the chunk buffer equal the increase of cur_chunk_len at every chunk creation and return, so the bounds computed from cur_chunk_len speak about the chunk emitted.',
+    'C06': 'Also (R06e): the text hashed for an interior node is the core::fmt rendering `{:x} : {}\\n` of (child hash, child length); a hand-assembled line is reported as not establishable.',
+    'C07': 'Also (R07f): a loop that fills a buffer with partial reads reads into the unread tail buf[cursor..]; header readers may validate through parse_chunk_header.',
+    'C09': 'Also (R09g): position accounting of the keyed-shard exporter, the section writers and MDBFileInfo::serialize — the byte position recorded in the footer advances by exactly the bytes written (not decided for the zipped lookup tables of serialize_from).',
+    'C10': 'Also (R10d): position accounting of set_operation — every write adds its returned count to out_offset or is matched by one bulk update trips * record size that runs exactly when its loop runs.',
+    'C11': 'Also (R11e): ShardFileManager::new_impl hands out a (cached or new) manager only after a successful rescan of its shard directory, so shards exported by another session or process are found.',
+    'C14': 'Also (R14f): add_data forwards every byte of its buffer to the chunker exactly once and in order.',
+    'C15': 'Also (R15f): the forced cut and search window are relative to cur_chunk_len, and cur_chunk_len equals the bytes buffered at every chunk creation and return (path-wise length accounting).',
+    'C18': 'R18d: shards given by path are loaded through load_all_valid only; the unfiltered load_from_file is applied only to a file the same function has just written.',
+    'C19': 'Also (R19f): the chunk cache\'s restart scan skips a leftover file whose name is not a cache item name instead of failing.',
+}
+for _k, _v in _ROUND4.items():
+    CLAIMS[_k]['text'] += ' ' + _v
